@@ -166,6 +166,14 @@ func (fx *FnExec) define(prefix, sort, term string) string {
 		return term
 	}
 	n := fx.freshName(prefix)
+	if sort == "Int" && (strings.HasPrefix(term, "(+ ") || strings.HasPrefix(term, "(- ")) {
+		// an integer sum is named by a constant, not a macro: as a macro it is flattened into the
+		// index expressions it occurs in ((+ off (+ i 1)) becomes (+ off i 1)) and quantified
+		// facts with the pattern (+ off j) no longer match it
+		fx.emit("(declare-const %s Int)", n)
+		fx.emit("(assert (= %s %s))", n, term)
+		return n
+	}
 	fx.emit("(define-fun %s () %s %s)", n, sort, term)
 	return n
 }
